@@ -1,7 +1,7 @@
 #!/bin/bash
 # tools/benigntest.sh <C..> "<tests>"   validate a behaviour-preserving change from /tmp/seed_<id>ok/seed_out:
 # demo passes with and without, tree tests identical, then the property's check must stay quiet with the patch on /repo
-id="$1"; tests="$2"; sfx="${3:-ok}"; dst="$id"; [ "$sfx" = "ok2" ] && dst="${id}b"
+id="$1"; tests="$2"; sfx="${3:-ok}"; dst="$id"; [ "$sfx" = "ok2" ] && dst="${id}b"; [ "$sfx" = "ok3" ] && dst="${id}c"
 wt=/tmp/seed_${id}${sfx}; out=$wt/seed_out
 [ -f $out/patch.diff ] || { echo "no patch"; exit 2; }
 cd $wt && git checkout -q -- src && git apply --check $out/patch.diff || { echo "patch does not apply"; exit 2; }
